@@ -1223,9 +1223,9 @@ class MeshRegion:
                 )
 
             # calculate curl on x-y grid
+            # (Bpxy and dx, dy carry their own signs: J = hy/Bpxy, so no bpsign here)
             self.curl_bOverB_x = (
                 -2.0
-                * self.bpsign
                 * self.Bpxy
                 * self.Btxy
                 * self.Rxy
@@ -1233,7 +1233,7 @@ class MeshRegion:
                 * self.DDY("#Bxy")
             )
             self.curl_bOverB_y = (
-                -self.bpsign * self.Bpxy / self.hy * self.DDX("#Btxy*#Rxy/#Bxy**2")
+                -self.Bpxy / self.hy * self.DDX("#Btxy*#Rxy/#Bxy**2")
             )
             self.curl_bOverB_z = (
                 self.Bpxy**3 / (self.hy * self.Bxy**2) * self.DDX("#hy/#Bpxy")
